@@ -33,6 +33,7 @@ type c10Variant struct {
 	// unsigned-second (second supplied key has no signature: reject) | invalid-second (its signature is corrupt: reject)
 	LayoutKeys string
 	RelExe     bool // the inspection runs an executable given by a relative path with a separator
+	Minority   bool // a third authorized functionary's valid link reports other products than the two that agree
 }
 
 func (v c10Variant) String() string {
@@ -43,12 +44,17 @@ func (v c10Variant) String() string {
 	if v.RelExe {
 		s += " relative-inspection-executable"
 	}
+	if v.Minority {
+		s += " third-link-disagrees"
+	}
 	return s
 }
 
 type c10Chain struct {
 	root, linkDir, finalDir, markerDir, layoutPath string
 	keys                                           map[string]intoto.Key
+	// the caller's list of additional intermediate certificates: one element in use, spare capacity behind it
+	callerInter [][]byte
 }
 
 func buildC10(c *core.Ctx, v c10Variant, root string) (*c10Chain, error) {
@@ -89,6 +95,20 @@ func buildC10(c *core.Ctx, v c10Variant, root string) (*c10Chain, error) {
 	}
 	layout := gen.NewLayout([]intoto.Step{build, test}, []intoto.Inspection{insp}, gen.KeyMap(A, B))
 	layout.RootCas = map[string]intoto.Key{ca.Key.KeyID: ca.Key}
+	// the layout brings an intermediate CA of its own, the caller passes another one
+	if ica, ierr := gen.NewCA(gen.CertSpec{CN: "c10-layout-intermediate"}, ca); ierr == nil {
+		layout.IntermediateCas = map[string]intoto.Key{ica.Key.KeyID: ica.Key}
+	}
+	if cca, cerr := gen.NewCA(gen.CertSpec{CN: "c10-caller-intermediate"}, ca); cerr == nil {
+		ch.callerInter = make([][]byte, 1, 4)
+		ch.callerInter[0] = []byte(cca.PEM)
+	}
+	if v.Minority {
+		X := fast[9]
+		layout.Steps[0].PubKeys = append(layout.Steps[0].PubKeys, X.Pub.KeyID)
+		layout.Keys[X.Pub.KeyID] = X.Pub
+		gen.WriteLink(ch.linkDir, gen.NewLink("build", nil, gen.Artifacts(map[string]string{"bin/app": "a third opinion\n"})), X.Priv, v.DSSE)
+	}
 	app := map[string]string{"bin/app": "binary\n"}
 	gen.WriteLink(ch.linkDir, gen.NewLink("build", nil, gen.Artifacts(app)), A.Priv, v.DSSE)
 	cProducts := gen.Artifacts(app)
@@ -208,7 +228,8 @@ func (ch *c10Chain) verify(md intoto.Metadata, dict map[string]string, v c10Vari
 	for k, val := range dict {
 		d[k] = val
 	}
-	a := VerifyArgs{Layout: md, Keys: keys, LinkDir: ch.linkDir, Cwd: ch.finalDir, Params: d, StepName: "sum"}
+	a := VerifyArgs{Layout: md, Keys: keys, LinkDir: ch.linkDir, Cwd: ch.finalDir, Params: d, StepName: "sum", Intermediates: ch.callerInter}
+	interBefore := fmt.Sprintf("%q", ch.callerInter[:cap(ch.callerInter)])
 	if v.RunDir {
 		a.RunDir, a.Cwd = gen.RunDirName, ch.root
 	}
@@ -219,6 +240,12 @@ func (ch *c10Chain) verify(md intoto.Metadata, dict map[string]string, v c10Vari
 	da, _ := json.Marshal(d)
 	if string(kb) != string(ka) {
 		obs.Trace = append(obs.Trace, "the caller's key map was modified")
+	}
+	if interBefore != fmt.Sprintf("%q", ch.callerInter[:cap(ch.callerInter)]) {
+		obs.Trace = append(obs.Trace, "the caller's list of intermediate certificates (its backing array) was modified")
+		for i := 1; i < cap(ch.callerInter); i++ {
+			ch.callerInter[:cap(ch.callerInter)][i] = nil
+		}
 	}
 	if string(db) != string(da) {
 		obs.Trace = append(obs.Trace, "the caller's parameter dictionary was modified")
@@ -248,6 +275,7 @@ func runC10(c *core.Ctx) {
 				variants = append(variants, c10Variant{Threshold: 1, DSSE: dsse, RunDir: runDir, LayoutKeys: lk})
 			}
 			variants = append(variants, c10Variant{Threshold: 1, DSSE: dsse, RunDir: runDir, RelExe: true})
+			variants = append(variants, c10Variant{Threshold: 2, DSSE: dsse, RunDir: runDir, Minority: true})
 		}
 	}
 	names := []string{"none", "p", "q", "r"}
@@ -407,6 +435,9 @@ func variantClass(v c10Variant) string {
 	if v.RelExe {
 		s += ", relative inspection executable"
 	}
+	if v.Minority {
+		s += ", third valid link disagrees"
+	}
 	return s
 }
 
@@ -414,7 +445,7 @@ func init() {
 	core.Register(&core.Property{
 		ID:    "C10",
 		Level: "exploration",
-		Rule: "chains biased to the anchors: step with one key-authorized and one certificate-authorized link (threshold 0, 1 and 2; the two links agreeing or disagreeing), certificate constraint lists that are not sorted, rules / expected command / inspection run with {PRODUCT} and {MARK} markers, a link whose artifact path needs cleaning (./bin//app) consumed by a MATCH rule, optionally a step delegated to a sublayout, two supplied layout keys (both signed / second without a signature / second with a corrupt signature), an inspection executable given by a relative path; 2 wrappers x 2 entry points; all histories of length<=2 plus 12 of length 3 (quick) / all of length<=3 plus 30 of length 4 (thorough) over the dictionaries {none, p (accepting), q (rejecting), r (a value containing another parameter's marker)} on ONE in-memory layout object: every outcome (verdict, summary, executed marker) must equal the outcome of a freshly loaded copy, and the serialisation of the layout object (payload, signatures, dumped envelope), of the key map and of the dictionary must be unchanged after every call; each baseline is repeated R=16 (quick) / 64 (thorough) times and each history R/4 times with fresh maps. " +
+		Rule: "chains biased to the anchors: step with one key-authorized and one certificate-authorized link (threshold 0, 1 and 2; the two links agreeing or disagreeing), certificate constraint lists that are not sorted, rules / expected command / inspection run with {PRODUCT} and {MARK} markers, a link whose artifact path needs cleaning (./bin//app) consumed by a MATCH rule, optionally a step delegated to a sublayout, two supplied layout keys (both signed / second without a signature / second with a corrupt signature), an inspection executable given by a relative path, three valid links of which one disagrees; the layout has an intermediate CA of its own and the caller passes a list of additional intermediates with spare capacity whose backing array is compared before/after; 2 wrappers x 2 entry points; all histories of length<=2 plus 12 of length 3 (quick) / all of length<=3 plus 30 of length 4 (thorough) over the dictionaries {none, p (accepting), q (rejecting), r (a value containing another parameter's marker)} on ONE in-memory layout object: every outcome (verdict, summary, executed marker) must equal the outcome of a freshly loaded copy, and the serialisation of the layout object (payload, signatures, dumped envelope), of the key map and of the dictionary must be unchanged after every call; each baseline is repeated R=16 (quick) / 64 (thorough) times and each history R/4 times with fresh maps. " +
 			"non-trivial = history of length>=2 or R>=2 with >=2 links in a step; distinct = (variant, history)",
 		Assumptions: []string{"the iteration order taken inside the library is not observable; reported are R, the number of distinct outcomes per case and the number of distinct orders a same-sized probe map showed in the same process"},
 		Workers:     func(string) int { return 16 },
